@@ -46,6 +46,7 @@ import (
 	"sync"
 	"time"
 
+	"github.com/wundergraph/graphql-go-tools/v2/pkg/engine/datasource/graphql_datasource"
 	client "github.com/wundergraph/graphql-go-tools/v2/pkg/engine/datasource/graphql_datasource/subscriptionclient"
 )
 
@@ -77,6 +78,7 @@ type Step struct {
 
 type Schedule struct {
 	ID      string `json:"id"`
+	Level   string `json:"level"`   // client (subscriptionclient.Client, default) | ds (data-source wrapper, see ds.go)
 	Mode    string `json:"mode"`    // ws | sse
 	Proto   string `json:"proto"`   // gtws | gws | auto
 	Variant string `json:"variant"` // which component of the option tuple distinguishes key 2 from key 1
@@ -178,6 +180,8 @@ func classify(err error) string {
 		return "closed"
 	case errors.Is(err, context.Canceled), strings.Contains(err.Error(), "context canceled"):
 		return "ctx"
+	case strings.Contains(err.Error(), "unexpected status"):
+		return "status"
 	case errors.Is(err, client.ErrDialFailed):
 		return "dial"
 	case isFailedUpgrade(err):
@@ -209,6 +213,7 @@ type runner struct {
 	reg  *netRegistry
 	sv   *server
 	cl   *client.Client
+	ds   graphql_datasource.GraphQLSubscriptionClient
 	st   *settler
 	subs []*subscriber
 	res  *Result
@@ -283,6 +288,14 @@ func (r *runner) call(s int) {
 	sub.called = true
 	before := r.sv.count()
 	r.rec.add(ev{"ev": "call", "s": s})
+	if r.ds != nil {
+		r.callDS(s, sub)
+		r.settle()
+		if r.sv.count() == before+1 {
+			sub.sconn = before + 1
+		}
+		return
+	}
 	opts := options(r.s, tuples(r.s)[r.s.Key[s-1]-1], r.sv.addr())
 	req := &client.Request{Query: fmt.Sprintf("subscription { s%d }", s)}
 	h := r.handler(s)
@@ -352,10 +365,10 @@ func (r *runner) step(st Step) {
 			return
 		}
 		if st.A == "Upgrade" {
-			r.rec.add(ev{"ev": "srv.upgrade", "c": c.n})
+			r.rec.add(ev{"ev": "srv.upgrade", "c": c.n, "s": c.sseSub})
 			c.gate <- "upgrade"
 		} else {
-			r.rec.add(ev{"ev": "srv.reject", "c": c.n})
+			r.rec.add(ev{"ev": "srv.reject", "c": c.n, "s": c.sseSub})
 			c.gate <- "reject"
 		}
 		r.settle()
@@ -424,7 +437,7 @@ func (r *runner) step(st Step) {
 			r.res.Unrealised++
 			return
 		}
-		r.rec.add(ev{"ev": "srv.close", "c": c.n})
+		r.rec.add(ev{"ev": "srv.close", "c": c.n, "s": c.sseSub})
 		c.mu.Lock()
 		c.closedBy = "server"
 		done := c.sseDone
@@ -496,6 +509,10 @@ func runSchedule(s Schedule, w *bufio.Writer) Result {
 		WSIdleTimeout: idle,
 	})
 	r := &runner{s: s, rec: rec, reg: reg, sv: sv, cl: cl, res: &res, idle: idle}
+	if s.Level == "ds" {
+		r.ds = newDSClient(cctx, &http.Client{Transport: tr})
+		r.idle, idle = 0, 0
+	}
 	r.st = &settler{reg: reg, events: rec.count}
 	for range s.Key {
 		ctx, cancel := context.WithCancel(context.Background())
@@ -528,8 +545,10 @@ func runSchedule(s Schedule, w *bufio.Writer) Result {
 	if !r.st.settle(3 * time.Second) {
 		res.Unsettled++
 	}
-	st := cl.Stats()
-	rec.add(ev{"ev": "stats", "n": st.WSConns, "m": st.SSEConns})
+	if r.ds == nil {
+		st := cl.Stats()
+		rec.add(ev{"ev": "stats", "n": st.WSConns, "m": st.SSEConns})
+	}
 	rec.add(ev{"ev": "srv.open", "n": sv.open()})
 	rec.add(ev{"ev": "end"})
 	tEnd := time.Now()
